@@ -146,7 +146,7 @@ def measured_nodes():
 
 # ----------------------------------------------------------------- class tokens -> values
 
-OBJ = {"none": None, "int": 5, "empty": "", "float": 1.5, "strnum": "7", "str": "yes", "zero": 0, "list": [], "emptydict": {},
+OBJ = {"true": True, "none": None, "int": 5, "empty": "", "float": 1.5, "strnum": "7", "str": "yes", "zero": 0, "list": [], "emptydict": {},
        "emptylist": [], "emptyset": set(), "tuple": ("a",), "unknown": "bogus-value", "date7": "2015052", "date9": "201505222",
        "date_dashed": "2015-05-22", "nodate": "Fedora-22", "label_ga": "GA", "label_noversion": "RC", "label_onepart": "RC-1",
        "label_unknown": "Gamma-1.0", "label_threepart": "RC-1.0.0", "label_lower": "rc-1.0", "trailingdot": "1.", "doubledot": "1..2",
@@ -228,6 +228,8 @@ def corrupt_object(fmt, obj, node_index, field, cls):
         node.checksums[5] = ["sha256", "0" * 64]
     elif cls == "onlyone":
         node.totaldiscs = None
+    elif field.startswith("path_"):
+        setattr(node.paths, field[5:], OBJ[cls])
     else:
         setattr(node, field, OBJ[cls] if not isinstance(OBJ[cls], (list, dict, set)) else type(OBJ[cls])(OBJ[cls]))
 
